@@ -152,6 +152,21 @@ func c05Eval(c *Ctx, cs Case) {
 			fail("Spec.cmsVerify accepts a changed encapsulated content", s, "false")
 		}
 	}
+	// ---- strict DER (X.690): minimal lengths everywhere, SET OF elements ordered by their encodings ----
+	if roots, ok := parseDER(blob); !ok || len(roots) != 1 || !bytes.Equal(roots[0].encode(), blob) {
+		fail("the output is not a single DER element with minimal length encodings", "", "")
+	} else {
+		roots[0].walk(nil, func(n, _ *derNode) {
+			if n.tag != 0x31 && !(n.tag == 0xa0 && len(n.kids) > 1 && n.kids[0].tag == 0x30 && len(n.kids[0].kids) == 2 && n.kids[0].kids[0].tag == 0x06) {
+				return // SETs, and the [0] IMPLICIT SET OF Attribute of a SignerInfo
+			}
+			for i := 1; i < len(n.kids); i++ {
+				if bytes.Compare(n.kids[i-1].encode(), n.kids[i].encode()) > 0 {
+					fail("a SET OF in the output is not in DER order (elements sorted by their encodings); the signature is computed over that encoding", hx(n.kids[i-1].encode()[:4])+" before "+hx(n.kids[i].encode()[:4]), "ascending")
+				}
+			}
+		})
+	}
 	// ---- byte-exact correspondence with the Lean builder model ----
 	c.Trace()
 	m := c.Drv.Ask("p7.sign", cs.S("oid"), hx(content), hx(cert.Raw), hx(cert.RawIssuer), cert.SerialNumber.String(),
@@ -221,7 +236,9 @@ func contentFor(c *Ctx, oid string, l int) []byte {
 }
 
 func c05Gen(c *Ctx) {
-	oids := []string{"1.2.840.113549.1.7.1", "1.3.6.1.4.1.311.2.1.4", "2.999.1234567.1", "0.39.16383.16384", "1.2.840.113549.1.7.2"}
+	// the last two have 14 and 38 content octets: with the second, the signed-attribute SET passes 127 bytes (long-form length)
+	oids := []string{"1.2.840.113549.1.7.1", "1.3.6.1.4.1.311.2.1.4", "2.999.1234567.1", "0.39.16383.16384", "1.2.840.113549.1.7.2",
+		"1.3.6.1.4.1.311.21.8.8000000.9000000", "1.3.6.1.4.1.311.21.8.16000000.15000000.14000000.13000000.12000000.11000000.10000000.1.2"}
 	lens := []int{0, 1, 2, 127, 128, 255, 256, 1000, 65535, 65536, 70000}
 	bitsets := []int{2048}
 	if c.Thorough {
@@ -253,7 +270,7 @@ func c05Gen(c *Ctx) {
 
 func init() {
 	register("C05", &PropDef{
-		Rule:   "SignPKCS7 over content types {data, SpcIndirectDataContent, 2.999.1234567.1, 0.39.16383.16384, signedData} x content lengths {0,1,2,127,128,255,256,1000,65535,65536,70000,random} x RSA 2048 (thorough: 3072, 4096) x 9 certificate shapes (short/long/multi-RDN/UTF-8 issuers; serials 1,127,128,255,256, high-bit, leading-zero source bytes, 20 bytes, 2^159). Each blob is verified by the library, by an encoding/asn1+crypto/rsa verifier, by go.mozilla.org/pkcs7 and by the Lean Spec, with the right and with different content, and reproduced byte for byte by the Lean builder model. Every case is non-trivial; distinct = distinct (oid, content, key, shape).",
+		Rule:   "SignPKCS7 over content types {data, SpcIndirectDataContent, 2.999.1234567.1, 0.39.16383.16384, signedData, and two enterprise OIDs of 14 and 38 content octets (signed attributes longer than 127 bytes)} x content lengths {0,1,2,127,128,255,256,1000,65535,65536,70000,random} x RSA 2048 (thorough: 3072, 4096) x 11 certificate shapes (9 self-signed and 2 CA-issued with issuer different from subject; short/long/multi-RDN/UTF-8 issuers; serials 1,127,128,255,256, high-bit, leading-zero source bytes, 20 bytes, 2^159). Each blob is checked for strict DER (minimal lengths, SET OF order) by an independent walker, verified by the library, by an encoding/asn1+crypto/rsa verifier, by go.mozilla.org/pkcs7 and by the Lean Spec, with the right and with different content, and reproduced byte for byte by the Lean builder model. Every case is non-trivial; distinct = distinct (oid, content, key, shape).",
 		Assume: []string{"RSA PKCS#1 v1.5 signing is deterministic, so the builder model is given the signature and the signing time read back from the blob", "x509.ParseCertificates is opaque (its verdict is handed to the model)"},
 		Eval:   c05Eval, Gen: c05Gen,
 	})
